@@ -364,6 +364,18 @@ O(id='BIT_STRING_encode_oer', props=['C02', 'C06', 'C07'], kind='bounded', entry
   unwind=18, bound='bit strings of 0..4 octets, every int bits_unused, size constraint -1..64 bits, with/without buffer; callback may fail at any call',
   min_props=50, timeout=600)
 
+# ---------------------------------------------------------------- compiler: PER / OER layout numbers (hook)
+EC = dict(harness='harness/h_emit_constraints.c', units=['libasn1compiler/asn1c_C.c'],
+          incdirs=['libasn1compiler', 'libasn1fix', 'libasn1parser', 'libasn1common', 'libasn1print', 'skeletons'], defines=['HAVE_CONFIG_H'],
+          allow_no_body=['asn1c_compiled_output', 'expr_get_type', 'asn1p_itoa', 'PER_FROM_alphabet_characters', 'asn1c_get_type', 'asn1f_printable_value'],
+          native=False)
+O(id='emit_single_member_PER_constraint', props=['C02', 'C09'], kind='width', entry='h_emit_PER_constraint', functions=['emit_single_member_PER_constraint'],
+  proves=['emit_single_member_PER_constraint'], unwind=131, bound='every value range [lb, ub] with -2^100 < lb <= ub < 2^100, extensible or not (loops bounded by the 128-bit integer width)',
+  trusted=['hook VLM_ASN1C_VERIF: ghost copies of rbits/ebits (add-only, /repo commit 91bef07)', 'OUT()/expr_get_type: no body (arbitrary results)'], min_props=20, timeout=900, **EC)
+O(id='emit_single_member_OER_constraint_value', props=['C02', 'C09'], kind='width', entry='h_emit_OER_constraint_value', functions=['emit_single_member_OER_constraint_value'],
+  proves=['emit_single_member_OER_constraint_value'], unwind=4, bound='every pair of 128-bit bounds lb <= ub (loop-free)',
+  trusted=['hook VLM_ASN1C_VERIF: ghost copies of width/positive', 'OUT()/expr_get_type: no body'], min_props=10, timeout=600, **EC)
+
 UNVERIFIED = {
  'C07': ['asn_encode_to_buffer / asn_encode_to_new_buffer / uper_encode_to_buffer / uper_encode_to_new_buffer with a UPER type encoder: obligations exist (tier experimental) but do not discharge (symbolic-length memcpy of the 32-octet bit scratch space runs out of memory); asn_encode with UPER is covered',
          'every constructed / generated type encoder is assumed to follow the operation-slot convention enumerated by the stub encoder',
